@@ -15,7 +15,17 @@
       partial erasure).  This is the guard that excludes the known finding C07-swa-middle-remove-* (a context shift
       that keeps a prefix reaches back into evicted cells); without it the statement is false
       ([C07_model_sees_effective_input_refuted]).  Without a window both conditions are vacuous ([no_window_ok]).
-    Cache capacity is not part of the model (known finding C07-swa-capacity is about capacity). *)
+    Cache capacity is not part of the model (known finding C07-swa-capacity is about capacity).
+
+    Atomicity (a hypothesis built into the transition system): [Submit] is ONE transition - the first free entry of
+    s.seqs is chosen, LoadCacheSlot selects the slot, marks it InUse and trims the cache, and the sequence is inserted,
+    with no other request and no batch in between - and [Step] (processBatch) is one transition.  In the code this is
+    the s.mu critical section of Server.completion and the lock processBatch holds from start to end
+    ("Operations on InputCacheSlot (including finding one through LoadCacheSlot) require a lock ... that serializes
+    these operations with each other and processBatch", cache.go).  [C07_no_double_use] is about LoadCacheSlot alone;
+    [C07_no_double_use_reachable] and every other theorem over histories hold for interleavings of whole transitions
+    only.  The concurrent stage of the check (the real completion handler called from several goroutines against
+    the real run loop, props/c07.py conc_stage) is what ties this hypothesis to the code. *)
 From Coq Require Import List ZArith Bool Arith Lia.
 From V Require Import Slots.Model Slots.ProofsKv Slots.ProofsWin Slots.WSlots Slots.WBatch Slots.WRef Slots.WNoFail Slots.WTerm Slots.Llama Slots.LlamaProofs.
 Import ListNotations.
